@@ -42,6 +42,7 @@ type DBCfg struct {
 	DeletePacing        bool   `json:"delete_pacing,omitempty"`
 	ShuffleList         bool   `json:"shuffle_list,omitempty"`
 	BlockPropCollector  bool   `json:"block_props,omitempty"`
+	ConcRangeKeys       bool   `json:"conc_range_keys,omitempty"`
 	Clients             int    `json:"clients"`
 	// key space
 	Prefixes int `json:"prefixes"`
